@@ -302,6 +302,13 @@ func (its *PushPullHandler) pushOperations() errors.OrdaError {
 }
 
 func (its *PushPullHandler) processSubscribeOrCreate(code pushPullCase) errors.OrdaError {
+	if code == caseMatchKeyNotType {
+		// the key is held by a datatype of another type: neither create nor subscribe may use it
+		if its.gotOption.HasCreateBit() {
+			return errors.PushPullDuplicateKey.New(its.ctx.L(), its.Key)
+		}
+		return errors.PushPullNoDatatypeToSubscribe.New(its.ctx.L(), its.Key)
+	}
 	if its.gotOption.HasSubscribeBit() && its.gotOption.HasCreateBit() {
 		switch code {
 		case caseMatchNothing:
